@@ -130,3 +130,50 @@ Theorem C05_other_password_or_credential_identifier_never_accepted :
     BadS CS \/ BadOprfDerive CS.
 Proof. exact @mismatched_login_never_accepted. Qed.
 Print Assumptions C05_other_password_or_credential_identifier_never_accepted.
+
+
+(* ---------------------------------------------------------------- at the 20 concrete suites
+   The theorems above that assume GroupLaws, restated for each of the 20 suites with CurveLaws as the only hypothesis
+   (HashLaws, CodecLaws, SizeLaws and the encoding half of GroupLaws are proved for them: Theory/GroupSplit.v). *)
+From OKE Require Import CodecsConcrete GroupSplit Concrete20.
+
+Definition C05_accepted_login_agrees_on_context_and_identities_statement {E Sc Pk Sk} (CS : Suite E Sc Pk Sk) : Prop :=
+  forall tape (setup : ServerSetup Pk Sk Sk) file rq cred ctx_s ids_s slog resp rest dbg
+         clog pw r' ctx_c ids_c ksf fin sk ek spk dbgc,
+    server_login_start CS (private_key_ops (ke CS)) tape setup (Some file) rq cred ctx_s ids_s = Ok (slog, resp, rest, dbg) ->
+    client_login_finish CS clog pw r' ctx_c ids_c ksf = Ok (fin, sk, ek, spk, dbgc) ->
+    k2_mac (cr_ke2 r') = k2_mac (cr_ke2 resp) ->
+    length (client_request_bytes CS clog) = length (server_request_bytes CS rq) ->
+    length (client_l2 CS r') = length (client_l2 CS resp) ->
+    length (k2_nonce (cr_ke2 r')) = length (k2_nonce (cr_ke2 resp)) ->
+    (exists rp env kp u s,
+       envelope_open CS env rp spk ids_c = Ok (kp, ek, u, s) /\
+       match ctx_c with Some c => c | None => nil end = match ctx_s with Some c => c | None => nil end /\
+       effective (id_client ids_c) (k_ser_pk (ke CS) (kp_pk kp)) =
+         effective (id_client ids_s) (k_ser_pk (ke CS) (ru_client_s_pk file)) /\
+       effective (id_server ids_c) (k_ser_pk (ke CS) spk) =
+         effective (id_server ids_s) (k_ser_pk (ke CS) (k_pub (ke CS) (kp_sk (ss_keypair setup)))))
+    \/ Bad (hash CS).
+Theorem C05_accepted_login_agrees_on_context_and_identities_at_each_of_the_20_suites : all_suites (fun _ _ _ _ CS => CurveLaws CS -> C05_accepted_login_agrees_on_context_and_identities_statement CS).
+Proof. apply at_the_20_suites. exact C05_accepted_login_agrees_on_context_and_identities. Qed.
+Print Assumptions C05_accepted_login_agrees_on_context_and_identities_at_each_of_the_20_suites.
+
+Definition C05_other_password_or_credential_identifier_never_accepted_statement {E Sc Pk Sk} (CS : Suite E Sc Pk Sk) : Prop :=
+  (forall a b : Sk, {a = b} + {a <> b}) ->
+  (forall P a b, ve CS P -> vs CS a -> vs CS b -> o_mul (oprf CS) P a = o_mul (oprf CS) P b -> a = b) ->
+  forall tape setup t1 pw creg rq t2 cred rr ids ksf upload ek spk t3 pw' cred' clog ke1 t4 ctx slog ke2 t5 dbg out,
+    ve CS (o_h2g (oprf CS) pw (dst_hash_to_group (oprf CS))) ->
+    ve CS (o_h2g (oprf CS) pw' (dst_hash_to_group (oprf CS))) ->
+    server_setup_new CS tape = Ok (setup, t1) ->
+    client_registration_start CS t1 pw = Ok (creg, rq, t2) ->
+    server_registration_start CS setup rq cred = Ok rr ->
+    client_registration_finish CS creg t2 pw rr ids ksf = Ok (upload, ek, spk, t3) ->
+    pw' <> pw \/ cred' <> cred ->
+    client_login_start CS t3 pw' = Ok (clog, ke1, t4) ->
+    server_login_start CS (private_key_ops (ke CS)) t4 setup (Some (server_registration_finish upload)) ke1 cred' ctx ids
+      = Ok (slog, ke2, t5, dbg) ->
+    client_login_finish CS clog pw' ke2 ctx ids ksf = Ok out ->
+    BadS CS \/ BadOprfDerive CS.
+Theorem C05_other_password_or_credential_identifier_never_accepted_at_each_of_the_20_suites : all_suites (fun _ _ _ _ CS => CurveLaws CS -> C05_other_password_or_credential_identifier_never_accepted_statement CS).
+Proof. apply at_the_20_suites. exact C05_other_password_or_credential_identifier_never_accepted. Qed.
+Print Assumptions C05_other_password_or_credential_identifier_never_accepted_at_each_of_the_20_suites.
